@@ -54,6 +54,7 @@ type Prover struct {
 	trace   bool
 	loadRep map[ssa.Value]ssa.Value
 	loadsOK bool
+	inPost  bool
 	where   map[ssa.Instruction]ipos
 	writers []ssa.Instruction
 	f       *fa
@@ -102,6 +103,23 @@ func (P *Prover) atom(kind int, val ssa.Value, inner Poly, c int64, uns bool) *A
 		P.global = append(P.global, ap.scale(-1))
 	case aVal:
 		if val != nil {
+			// results of module helpers: facts proved at all of the helper's returns
+			var call *ssa.Call
+			switch x := val.(type) {
+			case *ssa.Call:
+				call = x
+			case *ssa.Extract:
+				call, _ = x.Tuple.(*ssa.Call)
+			}
+			if call != nil && !P.inPost {
+				if f := call.Call.StaticCallee(); f != nil && P.c != nil && P.c.inModule(f) && f != P.fn {
+					P.inPost = true
+					for _, fact := range P.instPost(call, P.calleePosts(f, -1, false)) {
+						P.global = append(P.global, fact)
+					}
+					P.inPost = false
+				}
+			}
 			if lo, hi, ok := P.rangeOf(val); ok {
 				if lo != minI {
 					P.global = append(P.global, ap.scale(-1).add(constP(lo), 1)) // lo - a <= 0
@@ -470,8 +488,133 @@ func (P *Prover) condFacts(cond ssa.Value, truth bool) []Poly {
 		if f := c.Call.StaticCallee(); f != nil && f.String() == "strings.HasPrefix" && truth {
 			return []Poly{P.lenOf(c.Call.Args[1]).add(P.lenOf(c.Call.Args[0]), -1)}
 		}
+	case *ssa.Extract:
+		// ok := helper(...) : facts that hold at every return of the helper where that result is `truth`
+		if call, isCall := c.Tuple.(*ssa.Call); isCall {
+			return P.calleePost(call, c.Index, truth)
+		}
 	}
 	return nil
+}
+
+// postCache: callee -> key -> candidate facts proved at the relevant returns
+var postCache = map[*ssa.Function]map[string][]postFact{}
+
+type postFact struct {
+	res   int // result index the fact is about
+	kind  string
+	param int // for "leLen": parameter index
+}
+
+// calleePosts computes, for a module function with a body, which simple facts about its integer
+// results hold at every return (boolIdx < 0) or at every return whose bool result boolIdx is the
+// constant boolVal. Candidates: r >= 0, r <= len(p) for each string/slice parameter p.
+func (P *Prover) calleePosts(f *ssa.Function, boolIdx int, boolVal bool) []postFact {
+	if P.c == nil || !P.c.inModule(f) || f.Blocks == nil {
+		return nil
+	}
+	key := fmt.Sprintf("%d/%v", boolIdx, boolVal)
+	if m, ok := postCache[f]; ok {
+		if v, ok := m[key]; ok {
+			return v
+		}
+	} else {
+		postCache[f] = map[string][]postFact{}
+	}
+	postCache[f][key] = nil // recursion guard
+	var rets []*ssa.Return
+	for _, b := range f.Blocks {
+		ret, ok := b.Instrs[len(b.Instrs)-1].(*ssa.Return)
+		if !ok {
+			continue
+		}
+		if boolIdx >= 0 {
+			k, isK := ret.Results[boolIdx].(*ssa.Const)
+			if !isK || k.Value == nil {
+				return nil // not a constant pattern: no conditional facts
+			}
+			if (k.Value.String() == "true") != boolVal {
+				continue
+			}
+		}
+		rets = append(rets, ret)
+	}
+	if len(rets) == 0 {
+		return nil
+	}
+	CP := NewProver(P.c, f)
+	var out []postFact
+	res := f.Signature.Results()
+	for k := 0; k < res.Len(); k++ {
+		if !isInt(res.At(k).Type()) {
+			continue
+		}
+		try := func(goal func(ret *ssa.Return) Poly) bool {
+			for _, ret := range rets {
+				if !CP.Prove(goal(ret), ret.Block()) {
+					return false
+				}
+			}
+			return true
+		}
+		if try(func(ret *ssa.Return) Poly { return CP.poly(ret.Results[k]).scale(-1) }) {
+			out = append(out, postFact{res: k, kind: "ge0"})
+		}
+		for pi, prm := range f.Params {
+			switch prm.Type().Underlying().(type) {
+			case *types.Slice, *types.Basic:
+				if bt, isB := prm.Type().Underlying().(*types.Basic); isB && bt.Info()&types.IsString == 0 {
+					continue
+				}
+				pp := prm
+				if try(func(ret *ssa.Return) Poly { return CP.poly(ret.Results[k]).add(CP.lenOf(pp), -1) }) {
+					out = append(out, postFact{res: k, kind: "leLen", param: pi})
+				}
+			}
+		}
+	}
+	postCache[f][key] = out
+	return out
+}
+
+// calleePost instantiates the conditional postconditions of call for the edge on which its
+// bool result boolIdx has the given truth value.
+func (P *Prover) calleePost(call *ssa.Call, boolIdx int, truth bool) []Poly {
+	f := call.Call.StaticCallee()
+	if f == nil {
+		return nil
+	}
+	return P.instPost(call, P.calleePosts(f, boolIdx, truth))
+}
+
+func (P *Prover) instPost(call *ssa.Call, pfs []postFact) []Poly {
+	var out []Poly
+	for _, pf := range pfs {
+		// the caller-side value of result pf.res
+		var rv ssa.Value
+		if _, isTuple := call.Type().(*types.Tuple); isTuple {
+			for _, ref := range *call.Referrers() {
+				if ex, ok := ref.(*ssa.Extract); ok && ex.Index == pf.res {
+					rv = ex
+				}
+			}
+		} else if pf.res == 0 {
+			rv = call
+		}
+		if rv == nil {
+			continue
+		}
+		r := P.poly(rv)
+		switch pf.kind {
+		case "ge0":
+			out = append(out, r.scale(-1))
+		case "leLen":
+			if pf.param < len(call.Call.Args) {
+				out = append(out, r.add(P.lenOf(call.Call.Args[pf.param]), -1))
+			}
+		}
+	}
+	return out
 }
 
 // A disequality d != 0 is kept as a marker polynomial (key "!=") and resolved lazily.
